@@ -441,14 +441,14 @@ impl World {
     }
 
     /// Oldest commit in the log that member `m` has not been offered yet, is eligible, and was
-    /// created `retention - 1` or more epochs below m's current epoch: it must be delivered before
+    /// created `retention` or more epochs below m's current epoch (the boundary depth itself is driven): it must be delivered before
     /// m moves on, or a rollback to it would need a snapshot that retention has already pruned.
     pub fn overdue_commit(&self, m: usize, g: usize, retention: usize, causal: bool, proposals_first: bool) -> Option<usize> {
         let gid = self.gid(g);
         let cur = self.clients[m].state(g, &gid)?.1;
         (0..self.log.len()).find(|i| {
             let p = &self.log[*i];
-            p.g == g && p.kind == PubKind::Commit && !self.clients[m].seen.contains(i) && p.at.1 + (retention as u64) <= cur + 1 && self.eligible(m, *i, causal, proposals_first)
+            p.g == g && p.kind == PubKind::Commit && !self.clients[m].seen.contains(i) && p.at.1 + (retention as u64) <= cur && self.eligible(m, *i, causal, proposals_first)
         })
     }
 
